@@ -1,5 +1,5 @@
 (* C05 - each operation completes exactly once, with the acknowledgement addressed to it. *)
-From Poster Require Import Model.Sim Proofs.ClientP Proofs.SimInvP Proofs.OwnP Proofs.ByteRangeP Proofs.TypedP Proofs.OnceP.
+From Poster Require Import Model.Sim Proofs.ClientP Proofs.SimInvP Proofs.OwnP Proofs.ByteRangeP Proofs.TypedP Proofs.OnceP Proofs.QuotaP Proofs.ResumeP Proofs.WireP Proofs.TraceP Proofs.AwaitP.
 
 (* the key under which an operation waits - (expected acknowledgement type << 24) | (id << 8) -
    identifies type and identifier uniquely *)
@@ -109,3 +109,64 @@ Example C05_once_nonvacuous :
   let evs := [EPoll 0; EDeliver [64; 2; 0; 1]; EDeliver [64; 2; 0; 1]; EPoll 0; EPoll 0; EDeliver [64; 2; 0; 1]; EPoll 0; EPoll 0] in
   Forall (no_restart 0) evs /\ dones 0 (all_obs (final_state sys_init pre) evs) = 1%nat.
 Proof. split; [repeat constructor|vm_compute; reflexivity]. Qed.
+
+(* ---- with the acknowledgement addressed to it, over every history of Context steps (Proofs/AwaitP.v) ---------------------
+   A history is any list of Context steps: requests taken from handles (QMsg) and packets from the server (QPkt),
+   from ANY state with a healthy writer. Written from the property, not from the code:
+   - `outstanding`: the accepted requests whose acknowledgement has not arrived - a request that is not refused
+     registers (key, (operation, phase)), key = acknowledgement type and identifier; an inbound PUBACK / PUBREC /
+     PUBCOMP / SUBACK / UNSUBACK / PINGRESP removes the OLDEST registration under its key;
+   - `completions`: what is put into which operation's oneshot, in order - a refusal (too big / no quota), "written"
+     for a request that awaits nothing, and for an inbound acknowledgement the packet itself, to the oldest
+     registration under its key; nothing for an acknowledgement nobody awaits, nothing for any other packet.
+   The table of awaited acknowledgements IS `outstanding` and the operations' oneshots are filled by exactly
+   `completions`, in that order (`complete_ops`: a full or abandoned oneshot is left alone). So an operation is
+   completed only by the acknowledgement bearing the key it registered, with that packet as content; operations whose
+   acknowledgement has not arrived are untouched. *)
+Theorem C05_awaiting_history : forall (evs : list qev) (s : sys), wbudget s = None ->
+  awaiting (c (run_q s evs)) = outstanding s (awaiting (c s)) evs.
+Proof. exact awaiting_history. Qed.
+Print Assumptions C05_awaiting_history.
+Theorem C05_completions_history : forall (evs : list qev) (s : sys), wbudget s = None ->
+  ops (run_q s evs) = fold_left complete_ops (completions s (awaiting (c s)) evs) (ops s).
+Proof. exact ops_history. Qed.
+Print Assumptions C05_completions_history.
+Theorem C05_completed_by_own_ack : forall (g : list reg) (p : rxpkt) (i ph : N),
+  In (i, ph, CPkt p) (spec_completes_pkt g p) -> exists k, spec_acks p = Some k /\ alookup k g = Some (i, ph).
+Proof. exact completion_is_first_outstanding. Qed.
+Print Assumptions C05_completed_by_own_ack.
+(* pings complete one per PINGRESP in issue order: the operations completed by PINGRESPs, in order, are what a FIFO
+   queue of the accepted pings yields (`ping_answers`: enqueue at an accepted ping, dequeue at a PINGRESP; a PINGRESP
+   on an empty queue completes nobody). Packets carry u16 identifiers (every decoded packet does, Proofs/ByteRangeP.v)
+   and a subscribe request is not keyed by the ping key. *)
+Theorem C05_pings_fifo : forall (evs : list qev) (s : sys) (g : list reg), Forall pid_ok evs -> Forall sub_key_ok evs ->
+  pingresp_completions (completions s g evs) = ping_answers s (pings g) evs.
+Proof. exact pings_fifo. Qed.
+Print Assumptions C05_pings_fifo.
+(* and for one poll of the Context task in the script layer, whose explicit history is `trace` (Proofs/TraceP.v) *)
+Theorem C05_after_poll : forall s : sys, cph s = CRunning -> hold s = false -> ctx_alive s = true -> wbudget s = None ->
+  awaiting (c (settle s)) = outstanding s (awaiting (c s)) (trace (settle_fuel s) s) /\
+  ops (settle s) = fold_left complete_ops (completions s (awaiting (c s)) (trace (settle_fuel s) s)) (ops s).
+Proof. exact awaiting_after_poll. Qed.
+Print Assumptions C05_after_poll.
+Check (eq_refl : spec_acks = fun p => match rk p with
+  | KPuback => Some (aid 4 (r_pid p)) | KPubrec => Some (aid 5 (r_pid p)) | KPubcomp => Some (aid 7 (r_pid p))
+  | KSuback => Some (aid 9 (r_pid p)) | KUnsuback => Some (aid 11 (r_pid p)) | KPingresp => Some (aid 13 0) | _ => None end).
+Check (eq_refl : spec_registers = fun s m => if refused s m then [] else
+  match m with MFire _ _ => [] | MAwait i ph a _ => [(a, (i, ph))] | MSub i a _ _ => [(a, (i, 1))] end).
+Check (eq_refl : spec_completes_pkt = fun g p => match spec_acks p with
+  | Some k => match alookup k g with Some (i, ph) => [(i, ph, CPkt p)] | None => [] end | None => [] end).
+Check (eq_refl : pings = fun g => map snd (filter (fun r => fst r =? aid 13 0) g)).
+
+(* two pings (operations 3 and 4) around a QoS 1 publish (operation 0, identifier 1); the server answers PINGRESP,
+   a stray PUBACK for identifier 7, PUBACK 1, PINGRESP, and a third PINGRESP nobody awaits *)
+Example C05_history_nonvacuous :
+  let pr := mkrx KPingresp false false false 0 0 0 [] [] [] [] in
+  let evs := [QMsg (MAwait 3 1 (aid 13 0) [192; 0]); QMsg (MAwait 0 1 (aid 4 1) [50; 6; 0; 1; 116; 0; 1; 0]);
+              QMsg (MAwait 4 1 (aid 13 0) [192; 0]); QPkt pr;
+              QPkt (mkrx KPuback false false false 0 7 0 [] [] [] []);
+              QPkt (mkrx KPuback false false false 0 1 0 [] [] [] []); QPkt pr; QPkt pr] in
+  Forall pid_ok evs /\ Forall sub_key_ok evs /\
+  completions sys_init [] evs = [(3, 1, CPkt pr); (0, 1, CPkt (mkrx KPuback false false false 0 1 0 [] [] [] [])); (4, 1, CPkt pr)] /\
+  ping_answers sys_init [] evs = [(3, 1); (4, 1)] /\ outstanding sys_init [] evs = [].
+Proof. cbv zeta. split; [repeat constructor; cbn; lia|]. split; [repeat constructor|]. vm_compute. auto. Qed.
